@@ -212,7 +212,10 @@ Lemma toy_curves_ok_each c : In c toy_curves -> toy_ok c = true.
 Proof. intros H. exact (proj1 (forallb_forall toy_ok toy_curves) toy_curves_ok c H). Qed.
 
 (* ---- the shipped generators: every premise that is decidable by computation is decided here, on the table
-        regenerated from /repo (a changed constant breaks shipped_ok) ---- *)
+        regenerated from /repo (a changed constant breaks shipped_ok).  M1, M4, n*G = O are hypotheses of the two theorems
+        below; Proofs/ShippedOrder.v PROVES M1 (and M2, M3) for the three rows and derives n*G = O from M4 (certificates
+        re-checked by the kernel), leaving M4 as the only premise (shipped_fixed_base_M4only, shipped_multiply_M4only); M4 itself
+        is proved in Proofs/EcAssoc.v, and Proofs/ShippedUncond.v states the results with no premise at all ---- *)
 Definition shipped_curve (t : Z * Z * Z * Z * Z * Z * nat) : curve :=
   let '(p, a, b, _, _, n, _) := t in {| cp := p; ca := a; cb := b; cn := n |}.
 Definition shipped_G (t : Z * Z * Z * Z * Z * Z * nat) : pt :=
